@@ -6,7 +6,7 @@ out=seeded/RESULTS.tsv; : > $out
 for d in seeded/*/; do
   s=$(basename $d); p=$(python3 -c "import json;print(json.load(open('$d/meta.json'))['property'])")
   git -C /repo apply /verif/$d/patch.diff || { echo "$s	$p	patch-failed	" >> $out; continue; }
-  ./check $p --tier quick > /tmp/confirm_$s.log 2>&1; rc=$?
+  PYVC_BOUNDED_FIRST=1 ./check $p --tier quick > /tmp/confirm_$s.log 2>&1; rc=$?
   git -C /repo checkout -- . 
   v=$(grep -m1 "^VIOLATION" /tmp/confirm_$s.log | cut -c1-220)
   u=$(grep -m1 -E "^(OUT-OF-SUBSET|CONTRACT-DRIFT|UNDECIDED)" /tmp/confirm_$s.log | cut -c1-160)
